@@ -57,6 +57,23 @@ def run_bdd_history(item, pid, wdir, with_model=True, profile="release"):
         res.update({"exact": exact, "canon": canon, "diff": diff, "model_status": model["status"]})
     else:
         res.update({"exact": None, "canon": None, "diff": None})
+    if pid == "C07" and name.startswith("gen-"):
+        # C07's own oracle: the same history with another operation-cache / size-cache size must give the same handles
+        # (up to numbering of intermediate nodes) and the same query answers, on the crate itself
+        v = cache_variant(lines)
+        if v is not None:
+            vp = H.write_hist(os.path.join(wdir, name + ".var.hist"), v)
+            impl2 = H.run_impl(vp, oracle=False, profile=profile, timeout=meta.get("timeout", 120))
+            a, b = impl["lines"], impl2["lines"]
+            if any(l.startswith("panic") for l in a + b):
+                n = min(len(a), len(b)) - 1          # storage may fill earlier with a smaller cache: compare the common prefix
+                a, b = a[:n], b[:n]
+            _, canon2, d2 = H.compare_traces(lines, a, b, alloc=False)
+            res["variants"] = 1
+            if not canon2:
+                res["oracle"].append("ORACLE C07 line=%d results depend on the cache size: `%s` with `%s`, `%s` with `%s` (history line kind %s)"
+                                     % (d2[0] + 1, d2[2][:80], lines[0], d2[3][:80], v[0], d2[1]))
+            os.remove(vp)
     # keep the disk small: passing histories are deleted
     if not res["oracle"] and res.get("canon") is not False:
         try:
@@ -65,6 +82,16 @@ def run_bdd_history(item, pid, wdir, with_model=True, profile="release"):
             pass
         res["path"] = None
     return res
+
+
+def cache_variant(lines):
+    """the same history under a different cache size (None for `cfg default`)"""
+    t = lines[0].split()
+    if t[0] != "cfg" or t[1] == "default":
+        return None
+    cb = int(t[3])
+    nb = {0: 3, 1: 0, 2: 0, 3: 1}.get(cb, 0)
+    return ["cfg %s %s %d" % (t[1], t[2], nb)] + list(lines[1:])
 
 
 def shrink_bdd(lines, pid, kind, wdir, tag):
@@ -76,7 +103,19 @@ def shrink_bdd(lines, pid, kind, wdir, tag):
         hp = H.write_hist(os.path.join(wdir, "shrink-%s-%d.hist" % (tag, counter[0] % 4)), cand)
         impl = H.run_impl(hp, oracle=True, timeout=60)
         if kind == "oracle":
-            return any(oracle_tags(l) in R.TAGS[pid] for l in impl["oracle"])
+            if any(oracle_tags(l) in R.TAGS[pid] for l in impl["oracle"]):
+                return True
+            if pid == "C07":
+                v = cache_variant(cand)
+                if v is not None:
+                    vp = H.write_hist(os.path.join(wdir, "shrink-%s-v.hist" % tag), v)
+                    impl2 = H.run_impl(vp, oracle=False, timeout=60)
+                    a, b = impl["lines"], impl2["lines"]
+                    if any(l.startswith("panic") for l in a + b):
+                        n = min(len(a), len(b)) - 1
+                        a, b = a[:n], b[:n]
+                    return not H.compare_traces(cand, a, b, alloc=False)[1]
+            return False
         model = H.run_model(hp, timeout=120)
         _, canon, _ = H.compare_traces(cand, impl["lines"], model["lines"], alloc=(pid in R.ALLOC))
         return not canon
